@@ -467,6 +467,18 @@ def g_dist(ctx, rng, i):
             g.dist(e, l)
             g.dist(l, e)
         g.dist(e, g.Plane(e.array * -2.0))
+        # lines in special position and a plane parallel to them at a known distance: through the origin, parallel to a coordinate axis,
+        # inside a coordinate plane
+        for a0, d0 in ((np.zeros(3), np.array([1.0, 1.0, 0.0])), (np.zeros(3), gen.nonzero_vec(rng, 3, 3).astype(float)), (gen.coords(rng, (3,), 4, "int").astype(float), np.array([1.0, 0, 0])),
+                       (gen.coords(rng, (3,), 4, "int").astype(float), np.array([0, 0, 1.0])), (np.array([0.0, 2, -1]), np.array([0.0, 1, 3]))):
+            nrm = np.cross(d0, gen.nonzero_vec(rng, 3, 3).astype(float))
+            if np.linalg.norm(nrm) < 1e-9:
+                continue
+            c0 = float(rng.integers(1, 6))
+            ln = g.Line(g.Point(*a0), g.Point(*(a0 + d0)))
+            pl = g.Plane(np.append(nrm, -(nrm @ a0 + c0)))
+            g.dist(pl, ln)
+            g.dist(ln, pl)
         g.dist(g.Point(e.array[:3] * 1.0, homogenize=True) if False else g.Point(*e.array[:3]), e)
     elif kind == 3:
         s = g.Segment(p, q)
